@@ -293,6 +293,7 @@ def judge(env, world, case, viol, classes) -> None:
     auth_streak = False
     slot: list = []         # candidate instants of the single retry timer (more than one only in an auth streak)
     slot_mandatory = False
+    stop_pending = False
     expired_slot: list = []  # the last slot that passed while an attempt was in flight (its cancel report may trail by the error callback's duration)
     slot_set_seq = -1
     justified_now: list = []   # (t, why, mandatory)
@@ -363,22 +364,46 @@ def judge(env, world, case, viol, classes) -> None:
             was_stopped = stopped
             stopped = False
             stop_returned_seq = None
-            if phase == "idle":
+            if stop_pending:
+                # start() returned while an earlier stop() had not: which of the two the manager obeys in that instant
+                # is not specified -- an attempt there is allowed, none is required
+                classes.add("start_overlapping_stop")
+                justified_now.append((t, "start() overlapping a stop()", False))
+                # (stop() is past its own work -- only its clean-up is still running: the attempt it cancelled is over
+                # and start() begins a fresh failure count)
+                if phase == "attempting":
+                    phase = "idle"
+                    if cur_attempt is not None and cur_attempt.get("outcome") is None:
+                        cur_attempt["outcome"] = "stopped"
+                if phase == "idle":
+                    n = n_lo = 0
+                    auth_streak = False
+            elif phase == "idle":
                 n = n_lo = 0
                 auth_streak = False
                 justified_now.append((t, "start()", was_stopped))
-                if was_stopped and not coincides(t):
+                # start() has returned, every earlier stop() had returned before it: the manager is started and idle.
+                # Only something ELSE happening later in this very instant (another stop, a record, ...) leaves the
+                # outcome open; what came before it in the instant is history
+                later = any(x["seq"] > e["seq"] and abs(x["t"] - t) <= EPS and x["kind"] in ("rl_stop_call", "rl_stop_returned", "rl_start_call", "mdns_deliver", "end_injected", "rl_on_error", "rl_on_disconnect_ret") for x in tr)
+                if was_stopped and not later:
                     pending_mandatory.append((t, "start():start() returned while idle", e["seq"]))
         elif k == "rl_stop_call":
             must_listen_since = None
             if phase == "attempting":
                 classes.add("stop_in_flight")
             stopped = True
+            stop_pending = True
             slot = []
             expired_slot = []
             pending_mandatory = []
             justified_now = []
         elif k == "rl_stop_returned":
+            stop_pending = False
+            if not stopped:
+                # (a start() returned while this stop() was still in progress: see there)
+                last_t = t
+                continue
             stop_returned_seq = e["seq"]
             # whatever the attempt cancelled by this stop() armed on its way out is gone once stop() has returned
             if stopped:
@@ -672,6 +697,17 @@ def _late_name_cases():
                        "events": [{"t": 0, "do": "start"}, {"t": 128, "do": "end", "how": how}, {"t": 128 + 64 * (6 + 2 * k), "do": "mdns", "rec": rec}], "horizon": 120}
 
 
+def _stop_start_same_instant_cases():
+    """stop() and then start() in the same instant (and a little apart) while an attempt is handshaking or a user
+    callback is still running: start() returned last, so the manager runs."""
+    for first, cbd in ((["refuse", 2], {"error": 64}), (["ok"], {"connect": 64}), (["silent"], {}), (["refuse", 2], {"error": 200}), (["slow_ok", 64], {})):
+        for t_stop in (8, 16, 32):
+            for gap in (0, 1, 4, 16):
+                for how in ("stop", "stop_cb"):
+                    yield {"named": True, "addr": "ip", "K": 4.0, "plan": [first, ["ok"], ["ok"]], "cb_delay": cbd,
+                           "events": [{"t": 0, "do": "start"}, {"t": t_stop, "do": how}, {"t": t_stop + gap, "do": "start"}], "horizon": 90}
+
+
 def _stop_in_flight_restart_cases():
     """stop() while an attempt is in flight, start() again shortly after, the new attempt still at the TCP stage when
     whatever the stopped attempt left behind would be due."""
@@ -685,6 +721,7 @@ def _stop_in_flight_restart_cases():
 
 def enumerated(tier):
     yield from _stop_in_flight_restart_cases()
+    yield from _stop_start_same_instant_cases()
     yield from _late_name_cases()
     yield from _local_end_cases()
     yield from _derived_name_cases()
